@@ -37,7 +37,7 @@ import (
 // coverage bookkeeping (tests of one package run sequentially)
 
 type tally struct {
-	cases  map[string]int            // "Type variant [UNUSABLE(x)] [LOSSY]"
+	cases  map[string]int            // "Type variant [UNUSABLE(x)] [NOSERIALIZATION]"
 	values map[string]map[string]int // "Type.field" -> value -> count (strings and small ints)
 }
 
@@ -50,8 +50,8 @@ func (c *tally) add(i *keys.Info) {
 	if !i.Usable {
 		k += " UNUSABLE(" + i.FailsAt + ")"
 	}
-	if i.Lossy {
-		k += " LOSSY"
+	if i.NoSerialization {
+		k += " NOSERIALIZATION"
 	}
 	c.cases[k]++
 	c.addFields(i.Type, i.Fields)
@@ -180,10 +180,15 @@ func checkIDs(t *rapid.T, what string, i *keys.Info, k key.Key) {
 
 func checkSerialization(t *rapid.T, what string, i *keys.Info, k key.Key) {
 	ks, err := protoserialization.SerializeKey(k)
+	if i.Lossy {
+		t.Fatalf("%s: Lossy is never set any more", i)
+	}
 	if i.NoSerialization {
 		if err == nil {
 			t.Fatalf("%s: %s: marked NoSerialization but SerializeKey succeeded", i, what)
 		}
+		// (SerializeParameters is not covered by the flag: it refuses the AES-GCM cases but accepts
+		// RSA-SSA-PSS parameters with salt length 0.)
 		return
 	}
 	if err != nil {
@@ -202,8 +207,8 @@ func checkSerialization(t *rapid.T, what string, i *keys.Info, k key.Key) {
 	if _, fallback := back.(*protoserialization.FallbackProtoKey); fallback {
 		t.Fatalf("%s: %s: parsed to a FallbackProtoKey (parser not registered?)", i, what)
 	}
-	if eq := back.Equal(k) && k.Equal(back); eq == i.Lossy {
-		t.Fatalf("%s: %s: parse(serialize(key)).Equal(key) = %v but Lossy = %v", i, what, eq, i.Lossy)
+	if !back.Equal(k) || !k.Equal(back) {
+		t.Fatalf("%s: %s: parse(serialize(key)) is not Equal to the key", i, what)
 	}
 }
 
@@ -367,26 +372,16 @@ func usePrimitive(t *rapid.T, i *keys.Info) {
 	switch i.Class {
 	case keys.AEAD:
 		p, err := aead.New(h)
-		if i.FailsAt == keys.FailsAtConstructor {
-			// AES-GCM with unserializable IV / tag sizes: the key's own constructor refuses, the factory
-			// falls back to the key manager and hands out a 12/16 primitive.
+		if i.Type == "AesGcm" && (i.Fields["iv_size"].(int) != 12 || i.Fields["tag_size"].(int) != 16) {
+			// AES-GCM with IV / tag sizes the proto cannot represent: the key's own constructor refuses,
+			// and the factory's key-manager fallback cannot serialize the key, so the factory fails too
+			// (before repo commit 09abf34 it handed out a 12/16 primitive).
 			if _, derr := aesgcm.NewAEAD(i.Key.(*aesgcm.Key)); derr == nil {
-				t.Fatalf("%s: marked as refused by aesgcm.NewAEAD, but it returned a primitive", i)
+				t.Fatalf("%s: aesgcm.NewAEAD returned a primitive for non-standard sizes", i)
 			}
-			if err != nil {
-				t.Fatalf("%s: expected the key-manager fallback to succeed, got %v", i, err)
+			if !i.NoSerialization || i.FailsAt != keys.FailsAtFactory {
+				t.Fatalf("%s: want NoSerialization and FailsAt factory", i)
 			}
-			ct, err := p.Encrypt(msg, aad)
-			if err != nil {
-				fail("Encrypt (fallback)", err)
-			}
-			if len(ct) != len(i.OutputPrefix())+12+len(msg)+16 || !bytes.HasPrefix(ct, i.OutputPrefix()) {
-				t.Fatalf("%s: fallback ciphertext has %d bytes for a %d byte message", i, len(ct), len(msg))
-			}
-			if pt, err := p.Decrypt(ct, aad); err != nil || !bytes.Equal(pt, msg) {
-				t.Fatalf("%s: fallback Decrypt: %x, %v", i, pt, err)
-			}
-			return
 		}
 		if !i.Usable {
 			expectFailure(t, i, err, never)
